@@ -107,7 +107,7 @@ func runRace(args []string) []string {
 	go func() { done <- cmd.Wait() }()
 	select {
 	case <-done:
-	case <-time.After(150 * time.Second):
+	case <-time.After(100 * time.Second):
 		cmd.Process.Kill()
 		return []string{"hang"}
 	}
